@@ -836,3 +836,22 @@ MUTANTS += [
  dict(name='seed-C04-lazy-add-two-sites', prop='C04', patch='seeded/C04-lazy-reduction-two-sites/patch.diff', expect='R-FIELDLAYER'),
  dict(name='seed-C06-g1-128bit-via-endomorphism', prop='C06', patch='seeded/C06-g1-128bit-via-endomorphism/patch.diff', expect='R-DISPATCH'),
 ]
+# ---- R-WORDALG (C02/C03): x86-64 assembly, word-level algebra
+MUTANTS += [
+ dict(name='seed-C02-asm-multiply2-compare-chain', prop='C02', patch='seeded/C02-asm-multiply2-compare-chain-wrong-word/patch.diff', expect='wordalg|embedded_pairing_core_arch_x86_64_fpbase_384_multiply2'),
+ dict(name='seed-C02-asm-multiply2-compare-chain-c03', prop='C03', patch='seeded/C02-asm-multiply2-compare-chain-wrong-word/patch.diff', expect='wordalg|embedded_pairing_core_arch_x86_64_fpbase_384_multiply2'),
+ dict(name='seed-C03-bmi2-reduce-addback', prop='C03', patch='seeded/C03-bmi2-reduce-addback-carry-in/patch.diff', expect='wordalg|embedded_pairing_core_arch_x86_64_bmi2_adx_fpbase_384_montgomery_reduce'),
+ dict(name='seed-C03-bmi2-reduce-addback-c02', prop='C02', patch='seeded/C03-bmi2-reduce-addback-carry-in/patch.diff', expect='wordalg|embedded_pairing_core_arch_x86_64_bmi2_adx_fpbase_384_montgomery_reduce'),
+ dict(name='c03-revert-D10-square-doubling-carry', prop='C03', revert='D10', expect='wordalg|embedded_pairing_core_arch_x86_64_bigint_768_square'),
+ dict(name='c03-asm-muladdcarry-drops-second-carry', prop='C03', expect='R-WORDALG',
+      edits=[('src/core/arch/x86_64/multiply.s', '    add \\scratch, %rax\n    adc $0, %rdx\n    add %rax, \\dst\n    adc $0, %rdx\n.endm', '    add \\scratch, %rax\n    adc $0, %rdx\n    add %rax, \\dst\n.endm')]),
+ dict(name='c03-asm-fpadd-jbe-copies-on-equal-top-word', prop='C03', expect='wordalg|embedded_pairing_core_arch_x86_64_fpbase_384_add',
+      edits=[('src/core/arch/x86_64/bigint.s', '    cmp %rdx, %rsi\n    jb embedded_pairing_core_arch_x86_64_fpbase_384_add_final_copy', '    cmp %rdx, %rsi\n    jbe embedded_pairing_core_arch_x86_64_fpbase_384_add_final_copy')]),
+ dict(name='c03-asm-bmi2-reduce-final-add-drops-carry', prop='C03', expect='wordalg|embedded_pairing_core_arch_x86_64_bmi2_adx_fpbase_384_montgomery_reduce',
+      edits=[('src/core/arch/x86_64/multiply_bmi2_adx.s', '    adox 88(%rsi), %r8\n    adc %rbx, %r8', '    adox 88(%rsi), %r8\n    add %rbx, %r8')]),
+ dict(name='c03-asm-subtract-returns-limb-not-borrow', prop='C03', expect='bigint_384_subtract',
+      edits=[('src/core/arch/x86_64/bigint.s', '    sbb %rax, %rax\n    neg %rax\n    ret', '    sbb $0, %rax\n    neg %rax\n    ret')]),
+ dict(name='c03-benign-asm-final-copy-store-order', prop='C03', benign=True, expect='',
+      edits=[('src/core/arch/x86_64/bigint.s', 'embedded_pairing_core_arch_x86_64_fpbase_384_add_final_copy:\n    movq %rax, (%rdi)\n    movq %rbx, 8(%rdi)', 'embedded_pairing_core_arch_x86_64_fpbase_384_add_final_copy:\n    movq %rbx, 8(%rdi)\n    movq %rax, (%rdi)')]),
+ dict(name='c03-benign-asm-seeded-add-lexicographic-chain', prop='C03', benign=True, expect='', patch='selftest/fixes/benign-fpadd-lexicographic.patch'),
+]
